@@ -196,13 +196,53 @@ fn check_dup(c: &DupCase) -> CaseResult {
     for i in (1..order.len()).rev() {
         order.swap(i, rng.below(i as u64 + 1) as usize);
     }
-    for i in order {
+    // every third archive changes threads: the second half of the tiles is added, and the archive written, on
+    // other threads (the archive type is Send; a worker pool or an async executor moves it the same way)
+    let other_thread = c.order_seed % 3 == 0;
+    let half = if other_thread { order.len() / 2 } else { order.len() };
+    for &i in &order[..half] {
         let (id, content) = adds[i].clone();
         guarded("add_tile", || r.arch.add(id, content.clone()))?.map_err(|e| Fail::new("C10/harness", format!("add_tile: {e}")))?;
         r.model.insert(id, content);
     }
+    if half < order.len() {
+        let mut moved = std::mem::replace(&mut r.arch, crate::libx::Arch::new_sync());
+        let rest: Vec<(u64, Vec<u8>)> = order[half..].iter().map(|i| adds[*i].clone()).collect();
+        let rest2 = rest.clone();
+        let res = std::thread::scope(|sc| {
+            sc.spawn(move || {
+                let r = crate::engine::catch(|| -> std::io::Result<()> {
+                    for (id, content) in rest2 {
+                        moved.add(id, content)?;
+                    }
+                    Ok(())
+                });
+                (moved, r)
+            })
+            .join()
+        });
+        match res {
+            Ok((m, Ok(Ok(())))) => r.arch = m,
+            Ok((_, Ok(Err(e)))) => fail!("C10/harness", "add_tile on another thread: {e}"),
+            Ok((_, Err(pi))) => fail!(format!("C10/panic/add_tile/{}", pi.site()), "{} at {}", pi.msg, pi.loc),
+            Err(_) => fail!("C10/panic/add_tile/other-thread", "the adding thread panicked"),
+        }
+        for (id, content) in rest {
+            r.model.insert(id, content);
+        }
+    }
     let a = std::mem::replace(&mut r.arch, crate::libx::Arch::new_sync());
-    let mut bytes = guarded("to_writer", || a.write())?.map_err(|e| Fail::new("C10/write-err", format!("{e}")))?;
+    let mut bytes = if other_thread {
+        let res = std::thread::scope(|sc| sc.spawn(move || crate::engine::catch(|| a.write())).join());
+        match res {
+            Ok(Ok(r)) => r,
+            Ok(Err(pi)) => fail!(format!("C10/panic/to_writer/{}", pi.site()), "{} at {}", pi.msg, pi.loc),
+            Err(_) => fail!("C10/panic/to_writer/other-thread", "the writing thread panicked"),
+        }
+    } else {
+        guarded("to_writer", || a.write())?
+    }
+    .map_err(|e| Fail::new("C10/write-err", format!("{e}")))?;
     if c.reopen {
         let b2 = bytes.clone();
         let again = guarded("open", || if c.asyncw { crate::libx::Arch::open_async(b2) } else { crate::libx::Arch::open_sync(b2) })?.map_err(|e| Fail::new("C10/open-err", format!("{e}")))?;
@@ -213,6 +253,7 @@ fn check_dup(c: &DupCase) -> CaseResult {
     Ok(Meta::new(adj && nonadj)
         .label(longest > 65_535, "run>65535")
         .label(c.reopen, "rewritten-after-reopen")
+        .label(other_thread, "written-on-another-thread")
         .label(adj, "adjacent-repetition")
         .label(nonadj, "non-adjacent-repetition")
         .label(had_backed, "reader-backed-source")
@@ -301,7 +342,7 @@ pub fn run(ctx: &Ctx) {
     crate::engine::run_list(ctx, "more-than-65536-distinct-contents", &many, check_many);
     let (mo, mi) = ctx.tier.pick((50, 40), (200, 300));
     run_proptest(ctx, "retention-histories", PtCfg::new(ctx.lanes, ctx.tier.pick(1000, 8000)), || history::history(mo, mi, 60), check_retention);
-    for c in ["adjacent-repetition", "non-adjacent-repetition", "reader-backed-source", "foreign-undeduplicated-source", "mixture-memory-equals-backed", "retention-shared-content", "retention-remove", "retention-replace", "retention-reopen"] {
+    for c in ["adjacent-repetition", "non-adjacent-repetition", "reader-backed-source", "foreign-undeduplicated-source", "mixture-memory-equals-backed", "written-on-another-thread", "retention-shared-content", "retention-remove", "retention-replace", "retention-reopen"] {
         ctx.rec.floor(c, 20);
     }
 }
